@@ -396,6 +396,8 @@ def run(ctx):
             ctx.case(digest(b.cfg.id, kind, argstr), {"cfg": b.cfg.id, "directive": line.strip()} if src != "gen" and kind != "dbus" else None)
             where = "%s[%s]" % (b.cfg.id, src)
             casej = {"cfg": b.cfg.id, "line": line, "source": src}
+            if worker.timed_out(ctx, rep):
+                continue
             if "ok" not in rep:
                 msg = rep.get("error") or rep.get("panic") or rep.get("stderr") or ""
                 if src == "gen" and kind == "dbus" and ("missing" in msg or "unknown dbus action" in msg):
